@@ -203,6 +203,9 @@ PROPS["C16"] = {
         H("print_string_block_n3_known_trailing_quote_backslash", "nitrogql-printer", PR + "graphql_printer/utils.rs", "printer/print_string_h.rs", "verif_print_string",
           ["graphql_printer::utils::print_string"], "multi-line strings of 2..3 chars from the same alphabet ENDING in \" or \\ (the recorded finding)",
           tiers=("thorough",), timeout=3600, mem_gb=24, expect="fail", has_mutant=False),
+        H("js_string_one_write_n2", "sourcemap-writer", SW + "js_string_writer.rs", "sourcemap_writer/js_string_h.rs", "verif_js_string",
+          ["JsStringWriter::new", "JsStringWriter::write", "Drop for JsStringWriter"], "text of 0..2 chars from {\\, `, $, {, }, LF, a}, one write() call; CharSearcher::next_match stubbed",
+          tiers=("thorough",), timeout=5400, mem_gb=32),
         H("print_string_control_chars_real_format", "nitrogql-printer", PR + "graphql_printer/utils.rs", "printer/print_string_h.rs", "verif_print_string",
           ["graphql_printer::utils::print_string"], "one character from {U+000B, U+001F, U+007F, a}; format! is NOT stubbed (the real core::fmt runs)",
           tiers=("thorough",), timeout=3600, mem_gb=20),
